@@ -297,6 +297,7 @@ def check_miss_and_counts(P, ctx):
     g = P.cfg(fn)
     N = util.Norm(P, fn, inline=False)
     bad = None
+    late = None
     npaths = 0
     for path in g.paths():
         if util.path_end(path)[0] == 'term':
@@ -309,9 +310,19 @@ def check_miss_and_counts(P, ctx):
         assigns = sum(1 for e in evs if e['t'] == 'call' and e['name'] == 'assign')
         if (allocs, fixes, incs) not in ((1, 1, 1), (0, 0, 0)) or assigns != 2:
             bad = bad or ((allocs, fixes, incs, assigns), util.describe_path(g, path, 14))
+        # a call that can refuse the operation (assign / cast raise TypeError or ValueError for a value of the wrong type) must not come
+        # after the count was raised: a refused set would leave the count one above the number of nodes
+        seen_inc = False
+        for e in evs:
+            if e['t'] == 'write' and N.canon(e['lhs']) == ('arrow', ('param', 0), 'nitems'):
+                seen_inc = True
+            elif seen_inc and e['t'] == 'call' and e['name'] in ('assign', 'cast'):
+                late = late or util.describe_path(g, path, 14)
     ctx.stats['paths'] += npaths
     ctx.check(bad is None, rule, 'Tree_Set', site(fn), 'a path that allocates a node counts it once and rebalances once; the replace path does neither; key and value are each assigned once',
               ['(allocs, fix-ups, count increments, assigns) = %s' % (bad[0],)] + bad[1] if bad else None)
+    ctx.check(late is None, rule, 'Tree_Set:count-after-refusals', site(fn), 'the count is raised only after every call that can refuse the value (cast, assign): a refused set leaves count and nodes in step',
+              late)
     fn = P.fn('Tree_Rem')
     g = P.cfg(fn)
     N = util.Norm(P, fn, inline=False)
@@ -419,27 +430,22 @@ def check_colour_transfer(P, ctx):
 
 
 def check_assign_rebuilds(P, ctx, T, clear, insert, rule):
-    """assign clears the target on every path and then inserts (key, get(obj, key)) for every key the source iterates"""
+    """assign clears the target first, takes over the source's key / value types (also from an empty source) and inserts
+    (key, get(obj, key)) for every key the source iterates — evaluated (absmodel.eval_map_assign)"""
+    from . import absmodel
     fn = P.fn(P.slot(T, 'Assign', 'assign'))
-    g = P.cfg(fn)
     ctx.fn(fn)
-    N = util.Norm(P, fn, inline=False)
-    cl = [n for (n, c) in g.nodes_calling(clear) if N.canon(c[2][0]) == ('param', 0)]
-    ok = len(cl) == 1 and g.must_pass(g.exit, [cl[0]['id']])
-    ctx.check(ok, rule, fn['name'] + ':clears-always', site(fn), 'the previous bindings are cleared on every path, including when the source is empty')
-    ins = [(n, c) for (n, c) in g.nodes_calling(insert)]
-    ok = len(ins) == 1
-    if ok:
-        n, c = ins[0]
-        k = N.canon(c[2][1])
-        v = N.canon(c[2][2])
-        ok = k[0] == 'local' and v == ir.canon(('call', ('func', 'get'), (('param', 'obj', 1), ('local', k[1], None)))) and N.canon(c[2][0]) == ('param', 0)
-        # k is the foreach variable over obj
-        conds = [x for x in g.live() if x['kind'] == 'cond' and N.canon(x['expr']) == ir.canon(('bin', '!=', ('local', k[1], None), ('global', 'Terminal')))]
-        ok = ok and len(conds) == 1 and g.must_pass(n['id'], through_edges=[(conds[0]['id'], True)]) and g.must_pass(conds[0]['id'], [cl[0]['id']] if cl else [])
-        steps = [x for x in g.live() if x.get('loop_inc')]
-        ok = ok and len(steps) == 1 and g.must_pass(steps[0]['id'], [n['id']], start=conds[0]['id'])
-    ctx.check(ok, rule, fn['name'] + ':reinserts-all', site(fn), 'every key the source yields is inserted with the source\'s value for it, after the clear')
+    try:
+        bad, unsup, ncase = absmodel.eval_map_assign(P, T)
+    except absmodel.Unsupported as x:
+        bad, unsup, ncase = None, str(x), 0
+    ctx.stats['paths'] += ncase
+    for key, text in ((':clears-always', 'the previous bindings are cleared on every path, including when the source is empty, before the size fields change'),
+                      (':reinserts-all', 'the source\'s key and value types are taken over (also from an empty source) and every key the source yields is inserted with the source\'s value for it, after the clear')):
+        if unsup and not bad:
+            ctx.undecided(rule, fn['name'] + key, site(fn), 'assign leaves the evaluated fragment: ' + unsup)
+        else:
+            ctx.check(bad is None, rule, fn['name'] + key, site(fn), text + ' (%d sources evaluated)' % ncase, [bad] if bad else None)
     ctx.floor(rule, 2)
 
 
@@ -539,6 +545,11 @@ def run(ctx, load):
     check_assign_rebuilds(P, ctx, 'Tree', 'Tree_Clear', 'Tree_Set', 'C03.assign-rebuilds')
     check_rb_invariant(P, ctx)
     check_rb_operations(P, ctx)
+    # the order of the tree is the key type's cmp: for the built-in scalar key types it must be the order of the values (a truncated or
+    # overflowing difference is no order at all: a < b < c < a), or sorted iteration and lookup fail whatever the tree code does
+    from .rules_c09 import check_scalar_cmps
+    Pk = load(None, 'default')
+    ctx.borrow('C03.key-order-is-an-order', 4, lambda: check_scalar_cmps(Pk, ctx))
     if ctx.tier == 'thorough':
         Pc = load(UNITS, 'ndebug')
         ctx.stats['configs'].append('ndebug')
